@@ -31,3 +31,25 @@ CHECKS["C18"] = dict(
 CHECKS["C20"] = dict(
     text="Every program of the bounded corpus x every type-correct call is grounded by the real Operator and the reported grounded literals / expressions / typed forms are compared with positional substitution computed from the source text.",
     note=_REF, technique="bounded-exhaustive program x call enumeration, substitution oracle computed from the source text")
+CHECKS["C04"] = dict(
+    text="All plans (every sequence of type-correct calls, applicable or not) up to the length bound over three mini-domains are executed through TrajectoryExporter.parse_plan (sequence, three plan-file layouts, allow switch) and by direct Operator.apply chaining; every triplet, the chaining and the exported text are compared step by step with the reference transition function.",
+    note=_REF, technique="exhaustive enumeration of operation sequences (plans) up to a depth bound, reference-model step oracle")
+CHECKS["C05"] = dict(
+    text="Every problem text of the bounded generator and every single-point corruption of the base problems is parsed by the real ProblemParser; valid ones must be reproduced exactly, corrupted ones rejected - a confusion matrix by corruption kind instead of a few examples.",
+    note=_REF, technique="bounded-exhaustive input enumeration + exhaustive single-point fault injection")
+CHECKS["C06"] = dict(
+    text="All labelled type forests up to the size bound under every regrouping and every permutation of their declaration lines are parsed; is_sub_type is compared with the reflexive-transitive closure on all pairs, and every use site (facts, fluents, constants, goals, forall conditions and effects) on all (object type, required type) pairs.",
+    note=_REF, technique="exhaustive enumeration of type forests x declaration orders x type pairs")
+CHECKS["C07"] = dict(
+    text="Explicit-state BFS over API event histories on the real objects (worlds rebuilt by replay, de-duplicated on a canonical digest) with a purity invariant evaluated in every world, plus a cooperative scheduler that runs two real threads over the shared domain under every single pre-emption at every library source line: the two places where impurity needs a specific history or interleaving to show.",
+    note=_REF + "; scheduling points are library source lines (sys.settrace), the GIL makes single dict operations atomic", technique="explicit-state BFS over event histories with invariant checking + preemption-bounded exhaustive thread-schedule exploration of the real code",
+    engine="pv.runner + pv.threadsched")
+CHECKS["C09"] = dict(
+    text="Every valid problem of the bounded generator and every shipped problem/domain pair goes through export -> parse; the re-parsed problem's public attributes and the exported text (read independently) are compared with the original.",
+    note=_REF, technique="bounded-exhaustive round-trip enumeration, two independent observations")
+CHECKS["C10"] = dict(
+    text="Every trajectory produced by all plans up to the length bound (incl. repeated-argument fluents, zero-arity atoms, inapplicable steps), joint trajectories with nop entries, and the shipped trajectory files are serialized and parsed back with and without the problem's object table; actions, states and chaining are compared.",
+    note=_REF, technique="exhaustive enumeration of plan histories up to a depth bound, round-trip oracle")
+CHECKS["C14"] = dict(
+    text="Every state of a small universe is built along several routes (parsers, copies, successors); == is compared with the reference identity on all ordered pairs x all route pairs, every object is serialized and re-read, every copy is mutated both ways.",
+    note=_REF, technique="exhaustive enumeration of all state pairs of a bounded universe x construction routes")
